@@ -164,6 +164,9 @@ func (d *Daemon) ContainerList(_ context.Context, opts container.ListOptions) ([
 	out := make([]types.Container, 0, len(d.Containers))
 	for _, c := range d.Containers {
 		s := c.Summary
+		if !opts.All && s.State != "running" {
+			continue // without All the daemon lists running containers only
+		}
 		if !opts.Filters.Match("id", s.ID) {
 			continue
 		}
